@@ -1154,6 +1154,11 @@ def P_C14 (attr : Toks) (item : Item) (view : View) : Bool :=
   if dynamicRequested attr item then true
   else (implsOf view.items).all (implStaticOk attr item)
 
+/-- C14 in full: the only type the macro itself writes into a signature is the future type of a desugared
+    `async fn`; unless dynamic dispatch was requested it is `impl Future<..>` (C12), never a boxed `dyn Future` -/
+def P_C14_full (v : Variant) (attr : Toks) (item : Item) (view : View) : Bool :=
+  P_C14 attr item view && (dynamicRequested attr item || P_C12 v attr item view)
+
 /-! ## C19 — generated code refers to everything through absolute paths -/
 
 def absolute (ts : Toks) : Bool :=
